@@ -215,13 +215,17 @@ static void Array_Assign(var self, var obj) {
 static void Array_Reserve_More(struct Array* a) {
   
   if (a->nitems > a->nslots) {
-    a->nslots = a->nitems + a->nitems / 2;
-    a->data = realloc(a->data, Array_Step(a) * a->nslots);
+    /* The Array changes only once the new block is there */
+    size_t nslots = a->nitems + a->nitems / 2;
+    var data = nslots > SIZE_MAX / Array_Step(a)
+      ? NULL : realloc(a->data, Array_Step(a) * nslots);
 #if CELLO_MEMORY_CHECK == 1
-    if (a->data is NULL) {
+    if (data is NULL) {
       throw(OutOfMemoryError, "Cannot grow Array, out of memory!");
     }
 #endif
+    a->data = data;
+    a->nslots = nslots;
   }
 
 }
@@ -543,14 +547,18 @@ static void Array_Resize(var self, size_t n) {
     a->nitems--;
   }
   
-  a->nslots = n;
-  a->data = realloc(a->data, Array_Step(a) * a->nslots);
+  /* The Array changes only once the new block is there */
+  var data = n > SIZE_MAX / Array_Step(a)
+    ? NULL : realloc(a->data, Array_Step(a) * n);
 
 #if CELLO_MEMORY_CHECK == 1
-  if (a->data is NULL) {
+  if (data is NULL) {
     throw(OutOfMemoryError, "Cannot grow Array, out of memory!");
   }
 #endif
+
+  a->data = data;
+  a->nslots = n;
 
 }
 
